@@ -212,6 +212,30 @@ def loses_types(chain):
     return has_untyped(chain) or any(e["k"] == "cmb" and not e["v"]["type"] for e in chain[:-1])
 
 
+MACHINERY_KEYS = ("dim", "combine", "variable", "range", "latex_name", "name", "compose", "type")
+RESERVED_KEYS = ("name", "type", "compose")
+
+
+def key_kind(key):
+    """Variables!KindOf recomputed from the characters of the string (a type / attribute name is an
+    atomic key for the specification; the harness renders it as exactly this string)."""
+    if "." in key:
+        return "dotted"
+    if " " in key:
+        return "spaces"
+    if len(key) == 1:
+        return "char"
+    if key in MACHINERY_KEYS:
+        return "machinery"
+    return "plain"
+
+
+def alphabet_tag(chain):
+    """'' for chains whose types are plain words, else '+types-<kinds>'."""
+    kinds = sorted(set(key_kind(t) for e in chain for t in all_types(e)) - {"plain"})
+    return "+types-" + ",".join(kinds) if kinds else ""
+
+
 def start_kind(c):
     var = c.get("variable")
     if "variable" in c and not var:
